@@ -633,7 +633,7 @@ fn mutate(v: &mut Value, r: &mut Rng) -> &'static str {
     }
     let path = nonroot[r.usize(nonroot.len())].clone();
     let (parent_path, last) = (path[..path.len() - 1].to_vec(), path[path.len() - 1].clone());
-    match r.below(8) {
+    match r.below(10) {
         0 => {
             // delete a field / element
             if let Some(p) = get_mut(v, &parent_path) {
@@ -721,6 +721,43 @@ fn mutate(v: &mut Value, r: &mut Rng) -> &'static str {
                 *x = hostile_json_value(r);
             }
             "replace-with-hostile"
+        }
+        7 => {
+            // ndarray documents {"v":1,"dim":[..],"data":[..]}: change the shape CONSISTENTLY (dim and
+            // data together), so that the array itself parses and only the owner's shape check can object
+            let arrs: Vec<Vec<String>> = all
+                .iter()
+                .filter(|p| matches!(get(v, p), Some(Value::Object(m)) if m.contains_key("dim") && m.contains_key("data")))
+                .cloned()
+                .collect();
+            if arrs.is_empty() {
+                if let Some(x) = get_mut(v, &path) {
+                    *x = hostile_json_value(r);
+                }
+                return "replace-with-hostile";
+            }
+            let ap = arrs[r.usize(arrs.len())].clone();
+            if let Some(Value::Object(m)) = get_mut(v, &ap) {
+                let dims: Vec<u64> = m.get("dim").and_then(|d| d.as_array()).map(|a| a.iter().filter_map(|x| x.as_u64()).collect()).unwrap_or_default();
+                let fill = m.get("data").and_then(|d| d.as_array()).and_then(|a| a.first().cloned()).unwrap_or(json!(0.5));
+                let new_dims: Vec<u64> = match dims.len() {
+                    1 => vec![if r.bool() { dims[0].saturating_add(1) } else { dims[0].saturating_sub(1) }],
+                    2 => match r.below(4) {
+                        0 => vec![dims[0], dims[1].saturating_add(1)],
+                        1 => vec![dims[0].saturating_add(1), dims[1]],
+                        2 => vec![dims[0], dims[1].saturating_sub(1)],
+                        _ => vec![dims[0].saturating_add(1), dims[1].saturating_add(1)],
+                    },
+                    _ => dims.clone(),
+                };
+                let total: u64 = new_dims.iter().fold(1u64, |a, b| a.saturating_mul(*b));
+                if total > 4096 {
+                    return "reshape-array-consistently";
+                }
+                m.insert("dim".into(), json!(new_dims));
+                m.insert("data".into(), Value::Array((0..total).map(|_| fill.clone()).collect()));
+            }
+            "reshape-array-consistently"
         }
         _ => {
             // targeted: the fields whose consistency the constructors enforce
@@ -1023,7 +1060,7 @@ impl Prop for C20 {
             v.push(format!("json:{}:rejected", k));
             v.push(format!("valid-document:{}", k));
         }
-        for m in ["delete", "change-type", "shrink-array", "grow-array", "swap-values", "replace-with-hostile", "targeted-consistency-field", "duplicate-field", "truncate"] {
+        for m in ["delete", "change-type", "shrink-array", "grow-array", "swap-values", "replace-with-hostile", "targeted-consistency-field", "reshape-array-consistently", "duplicate-field", "truncate"] {
             v.push(format!("mutation:{}", m));
         }
         v.push("tagged:loaded".into());
